@@ -1,10 +1,12 @@
 package main
 
 import (
+	"vharness/c03"
 	"vharness/c06"
 	"vharness/c09"
 	"vharness/c14"
 	"vharness/c15"
+	"vharness/conf"
 	"vharness/vrt"
 )
 
@@ -17,8 +19,10 @@ func add(pkg string, m map[string]func(*vrt.Ctx)) {
 }
 
 func init() {
+	add("c03", c03.Harnesses)
 	add("c06", c06.Harnesses)
 	add("c09", c09.Harnesses)
 	add("c14", c14.Harnesses)
 	add("c15", c15.Harnesses)
+	add("conf", conf.Harnesses)
 }
